@@ -27,7 +27,9 @@ CONSTANTS Family,      \* "A" | "B" | "C" | "D"
           K,           \* B: sequence length
           Dup,         \* D: TRUE = all pairs of spellings, FALSE = pairs of a few
           NB,          \* D: at most this many DATA frames
-          AllTemplates \* TRUE = also pushed responses and trailers of responses (A, B, C)
+          AllTemplates,\* TRUE = also pushed responses and trailers of responses (A, B, C)
+          Part         \* 0 = the whole family; n > 0 = only its n-th part (A, B, C: the n-th template;
+                       \* D: the n-th role/stream) - large families are generated in parts, side by side
 
 Alphabet == {0, 9, 10, 13, 32, 33, 58, 65, 90, 97, 127, 128, 255}
 Strs(S, lo, hi) == UNION {[1..k -> S] : k \in lo..hi}
@@ -42,8 +44,9 @@ Base(kind) == CASE kind \in {"request", "push"} -> BaseReq
 Scn(role, chan, frames, fin) == [role |-> role, chan |-> chan, frames |-> frames, fin |-> fin]
 
 \* the scenario templates in which a block `hs` of a given kind is put to the test
-Templates == {<<"request", 1>>, <<"response", 1>>, <<"push", 1>>, <<"trailers", 1>>}
-             \cup (IF AllTemplates THEN {<<"response", 2>>, <<"trailers", 2>>} ELSE {})
+TemplateSeq == << <<"request", 1>>, <<"response", 1>>, <<"push", 1>>, <<"trailers", 1>>, <<"response", 2>>, <<"trailers", 2>> >>
+Templates == IF Part > 0 THEN {TemplateSeq[Part]}
+             ELSE {TemplateSeq[i] : i \in 1..(IF AllTemplates THEN 6 ELSE 4)}
 Build(t, hs) ==
   CASE t = <<"request", 1>>  -> Scn("server", "request", <<HF(hs)>>, "none")
     [] t = <<"response", 1>> -> Scn("client", "request", <<HF(hs)>>, "none")
@@ -83,12 +86,13 @@ CLHeaders(c) == [i \in DOMAIN c |-> <<ContentLength, c[i]>>]
 Bodies(x) == Strs(0..2, 0, NB)
 DataFrames(b) == [i \in DOMAIN b |-> DF(b[i])]
 Trailer == << <<VA, VA>> >>
+RoleChans == << <<"server", "request">>, <<"client", "request">>, <<"client", "push">> >>
 CasesD(x) ==
   {Scn(rc[1], rc[2],
        <<HF((IF rc[1] = "server" THEN BaseReq ELSE BaseResp) \o CLHeaders(c))>> \o DataFrames(b)
          \o (IF trl THEN <<HF(Trailer)>> ELSE <<>>),
        fin) :
-     rc \in {<<"server", "request">>, <<"client", "request">>, <<"client", "push">>},
+     rc \in (IF Part > 0 THEN {RoleChans[Part]} ELSE {RoleChans[i] : i \in 1..3}),
      c \in CLs(x), b \in Bodies(x), trl \in BOOLEAN, fin \in {"last", "lone"}}
 
 \* (the families take a dummy argument: TLC evaluates constant definitions
